@@ -9,6 +9,7 @@ import (
 	"go/constant"
 	"go/token"
 	"go/types"
+	"os"
 	"sort"
 	"strings"
 
@@ -308,6 +309,9 @@ func ruleG3(c *Ctx, r *Report, scope map[*ssa.Function]bool, floor int) {
 					}
 				}
 				// otherwise undetermined: not an obligation of this rule (lengths related through data)
+				if os.Getenv("VERIF_G3_SURVEY") != "" {
+					fmt.Println("G3-UNDETERMINED", base, c.Pos(ia.Pos()))
+				}
 				n--
 				seen[base] = 0
 			}
@@ -2265,7 +2269,9 @@ func (ts *taintState) guardedByLen(f *ssa.Function, b *ssa.BasicBlock, t *taintV
 				switch x.Op {
 				case token.LSS, token.LEQ, token.GTR, token.GEQ:
 					for i, o := range []ssa.Value{x.X, x.Y} {
-						other := []ssa.Value{x.Y, x.X}[i]
+						// inside an inlined helper the parameters stand for the call's arguments
+						o = substituted(stripConv(o))
+						other := substituted(stripConv([]ssa.Value{x.Y, x.X}[i]))
 						if !isLen(other) {
 							continue
 						}
